@@ -117,41 +117,73 @@ def check(lp, J, logs, k, get_type, prefix="C02", sampled=False, tracer_residue=
     for c in comps:
         exp_pos = c.end_idx + 1 if c.end == "R" else c.end_idx
         want.setdefault((c.fid, exp_pos), []).append(c)
-    matched = []  # (call, trace)
-    taken = set()
-    last_key = None
-    for fid, tr, pos in flogs:
-        f = lp.funcs[fid]
-        cands = [c for c in want.get((fid, pos), []) if c.cid not in taken]
-        adm_ok = bool(cands) and (admitted(fid) if admitted else True)
-        if not cands or not adm_ok:
-            V.append({"clause": prefix + (".subset-faithful" if sampled else ".once"), "cause": "code_equality_ignores_filename" if twin_conflict(lp, fid, conflict_pred) else None,
-                      "site": {"fid": fid, "kind": f["kind"], "body": f["body"], "log_pos": pos, "admitted": (admitted(fid) if admitted else True)},
-                      "msg": "logged trace of %s matches no completed admitted call at that moment (duplicate, early, late, or not admitted)" % fname(f)})
-            continue
-        c = cands[0]
-        if len(cands) > 1:
-            # several calls of the same function completed at this journal position (a callee
-            # returned and its caller then unwound): under sampling either may be the logged one
-            scored = []
-            for n_c, cand in enumerate(cands):
-                pr = faithful(prefix, lp, cand, lp.funcs[cand.fid], tr, gt, sampled)
-                scored.append((sum(1 for x in pr if not x.get("cause")), len(pr), n_c, cand))
-            c = min(scored, key=lambda t: t[:3])[3]
-        taken.add(c.cid)
-        matched.append((c, tr))
-        if last_key is not None and c.end_key < last_key:
-            V.append(viol(prefix + ".order", None, c, f, "traces logged out of completion order"))
-        last_key = c.end_key
-    for c in comps:
-        if c.cid in taken:
-            continue
-        f = lp.funcs[c.fid]
-        if admitted and not admitted(c.fid):
-            continue
-        if sampled or not definite(lp, f):
-            continue
-        V.append(missing(prefix, c, f, lp, conflict_pred))
+    def align_exact():
+        Vx, matched, taken, last_key = [], [], set(), None
+        for fid, tr, pos in flogs:
+            f = lp.funcs[fid]
+            cands = [c for c in want.get((fid, pos), []) if c.cid not in taken]
+            adm_ok = bool(cands) and (admitted(fid) if admitted else True)
+            if not cands or not adm_ok:
+                Vx.append({"clause": prefix + (".subset-faithful" if sampled else ".once"), "cause": "code_equality_ignores_filename" if twin_conflict(lp, fid, conflict_pred) else None,
+                           "site": {"fid": fid, "kind": f["kind"], "body": f["body"], "log_pos": pos, "admitted": (admitted(fid) if admitted else True)},
+                           "msg": "logged trace of %s matches no completed admitted call at that moment (duplicate, early, late, or not admitted)" % fname(f)})
+                continue
+            c = cands[0]
+            if len(cands) > 1:
+                # several calls of the same function completed at this journal position (a callee
+                # returned and its caller then unwound): under sampling either may be the logged one
+                scored = []
+                for n_c, cand in enumerate(cands):
+                    pr = faithful(prefix, lp, cand, lp.funcs[cand.fid], tr, gt, sampled)
+                    scored.append((sum(1 for x in pr if not x.get("cause")), len(pr), n_c, cand))
+                c = min(scored, key=lambda t: t[:3])[3]
+            taken.add(c.cid)
+            matched.append((c, tr))
+            if last_key is not None and c.end_key < last_key:
+                Vx.append(viol(prefix + ".order", None, c, f, "traces logged out of completion order"))
+            last_key = c.end_key
+        for c in comps:
+            if c.cid in taken:
+                continue
+            f = lp.funcs[c.fid]
+            if admitted and not admitted(c.fid):
+                continue
+            if sampled or not definite(lp, f):
+                continue
+            Vx.append(missing(prefix, c, f, lp, conflict_pred))
+        return Vx, matched
+
+    def align_by_order():
+        """Tolerant alignment: the property only demands one trace per completed call in completion
+        order, not that it is handed over at the very moment the frame returns. Traces may arrive
+        late (never before the call completed)."""
+        Vx, matched = [], []
+        p = 0
+        for c in comps:
+            f = lp.funcs[c.fid]
+            adm = admitted(c.fid) if admitted else True
+            exp_pos = c.end_idx + 1 if c.end == "R" else c.end_idx
+            if p < len(flogs) and flogs[p][0] == c.fid and adm and flogs[p][2] >= exp_pos:
+                matched.append((c, flogs[p][1]))
+                p += 1
+                continue
+            if not adm or sampled or not definite(lp, f):
+                continue
+            Vx.append(missing(prefix, c, f, lp, conflict_pred))
+        for fid, tr, pos in flogs[p:]:
+            f = lp.funcs[fid]
+            Vx.append({"clause": prefix + (".subset-faithful" if sampled else ".once"), "cause": "code_equality_ignores_filename" if twin_conflict(lp, fid, conflict_pred) else None,
+                       "site": {"fid": fid, "kind": f["kind"], "body": f["body"], "log_pos": pos, "admitted": (admitted(fid) if admitted else True)},
+                       "msg": "logged trace of %s matches no completed admitted call in completion order (duplicate, early, out of order, or not admitted)" % fname(f)})
+        return Vx, matched
+
+    Vx, matched = align_exact()
+    if any(not v.get("cause") for v in Vx):
+        # the exact-moment alignment failed: before reporting, try the order-only reading of the property
+        Vo, mo = align_by_order()
+        if sum(1 for v in Vo if not v.get("cause")) < sum(1 for v in Vx if not v.get("cause")):
+            Vx, matched = Vo, mo
+    V.extend(Vx)
     evaluated += len(comps)
     # --- per-trace faithfulness
     for c, tr in matched:
